@@ -48,12 +48,12 @@ ASSUMPTIONS = [
 ]
 FLOORS = {"quick": {"text_cases": 8000, "override_cases": 3000,
                     "include_cases": 1000, "validator_runs": 150},
-          "thorough": {"text_cases": 300000, "override_cases": 100000,
-                       "include_cases": 40000, "validator_runs": 5000}}
-N_MODELS = {"quick": 1000, "thorough": 20000}
+          "thorough": {"text_cases": 600000, "override_cases": 120000,
+                       "include_cases": 60000, "validator_runs": 8000}}
+N_MODELS = {"quick": 1000, "thorough": 40000}
 TEXTS = {"quick": 10, "thorough": 20}
-N_INCLUDE = {"quick": 1600, "thorough": 48000}
-N_VALIDATOR = {"quick": 200, "thorough": 6000}
+N_INCLUDE = {"quick": 1600, "thorough": 96000}
+N_VALIDATOR = {"quick": 200, "thorough": 12000}
 META = list("<>/%#()${}=") + [" ", "\t", " ", "\n"]
 
 
